@@ -442,10 +442,16 @@ def _callers(ck, codec, mathutil):
             judge("mutable", k, N, segsize, size, lambda: mutable_file(k, N, data, MDMF_VERSION, segsize_override=segsize))
 
 
-# MUST_CATCH (planted in a scratch copy via VF_REPO):
-#  1. codec.CRSEncoder.set_params: share_size computed with floor (data_size // required_shares)
-#  2. encode.py: padded_tail_size = tail_size - tail_size % k (floor instead of next_multiple)
-#  3. downloader/node.py: segment[:tail_segment_size] dropped / off by one
-#  4. codec.CRSDecoder.decode: share ids sorted but shares not (order-dependent decode)
-#  5. publish.py: piece padding removed / retrieve.py: size_to_use wrong for the tail
-#  6. codec.CRSDecoder.decode: passes their_shareids unconverted / truncated to k-1
+# MUST_CATCH -- planted in a scratch copy (VF_REPO); quick tier, seed 0; all caught:
+#  codec.CRSEncoder.set_params share_size = data_size // k (floor)         -> block-size-too-small, caller-mutable-padded-tail-wrong-bytes
+#  encode.py padded_tail_size rounded down instead of next_multiple        -> caller-immutable-raises (downloader length assert)
+#  downloader/node.py tail strip off by one                                -> caller-immutable-padded-tail-wrong-bytes
+#  downloader/node.py tail_segment_padded rounded down                     -> caller-immutable-raises
+#  codec.CRSDecoder.decode sorts the share ids but not the shares          -> share-order-dependent-decode (+ caller-* wrong bytes)
+#  publish.py per-piece zero padding removed                               -> caller-mutable-raises
+#  retrieve.py tail truncated to the padded instead of the data size       -> caller-mutable-padded-tail-wrong-bytes
+#  publish.py tail_segment_size rounded down to a multiple of k            -> caller-mutable-padded-tail-wrong-bytes, caller-mutable-raises
+#  codec.CRSEncoder.encode default ids drop the last share                 -> encoded-blocks-malformed
+#  codec.CRSDecoder.decode reverses the shares only when k == N > 200      -> decode-wrong-bytes, padded-tail-decodes-wrong (spot-256 class)
+# Hazard seen while self-testing: a break that hands zfec duplicate share ids makes zfec spin forever; the quick tier has no
+# watchdog for that (thorough shards have one).  Duplicate ids are outside the statement and never generated.
